@@ -795,6 +795,7 @@ func main() {
 	// ----- histories over several iterators ---------------------------------------------------
 	interleaveOracle(ctx)
 	realContextsOracle(ctx)
+	customIterErrorsOracle(ctx)
 
 	ctx.Res.Notes = append(ctx.Res.Notes,
 		fmt.Sprintf("subjects: %d fixed, %d from cli/test.yaml (%d entries readable), %d token mutants (%d of them also through the model)", len(fixedSubjects), nCorpus, len(corpus), len(fuzz), min(nModel, len(fuzz))),
